@@ -15,6 +15,7 @@ pub fn emit(s: &str) {
     }
 }
 /// run `f` in a forked child; returns (exit description, what the child emitted)
+pub static DEADLINE_SECS: std::sync::atomic::AtomicU32 = std::sync::atomic::AtomicU32::new(600);
 pub fn fork_run<F: FnOnce() -> String>(f: F) -> (String, String) {
     unsafe {
         let mut fds = [0i32; 2];
@@ -23,6 +24,7 @@ pub fn fork_run<F: FnOnce() -> String>(f: F) -> (String, String) {
         if pid == 0 {
             libc::close(fds[0]);
             OUT_FD.store(fds[1], std::sync::atomic::Ordering::SeqCst);
+            libc::alarm(DEADLINE_SECS.load(std::sync::atomic::Ordering::SeqCst));      // a child that hangs (a lock never handed over) dies with SIGALRM: "signal:14"
             let s = f();
             emit(&s);
             libc::_exit(0);
